@@ -93,7 +93,7 @@ CLAIMED = {
   category="other",
   text="The running-balance inequality itself is numerical and NOT decided. Decided necessary conditions, for all programs at once: the only balance-test-free debit (OP_TAKE_ALWAYS) is emitted only under a non-nil fallback whose address was just pushed, and a fallback exists only for @world or `allowing unbounded overdraft`; withdrawAlways is reachable only from that opcode; Machine.Balances is written only by its owners (inside tick only by OP_SAVE); money values are immutable (no in-place big.Int mutation on non-fresh receivers in internal/machine/**); a failing Execute yields no result, a short funding is ErrInsufficientFund; OP_TAKE_MAX refuses negative amounts before taking.",
   design_ref="DESIGN.md §3 C01",
-  technique="path state machines with edge facts over SSA, who-may-write, receiver-freshness provenance (static analysis)"),
+  technique="path state machines with edge facts over SSA, who-may-write, receiver-freshness provenance, per-path affine-form (linear equality) evaluation of balance updates (static analysis)"),
  "C08": dict(
   category="other",
   text="Compiler/source equivalence is translation validation and is NOT decided. Decided: cached programs are never mutated (no element store / map update / append / copy / delete / sort on values derived from Program fields outside the compiler; shared money immutable); the cache key digests the whole script and the value stored under it is the program compiled from that script; opcode tables agree (constants = tick cases = OpcodeName cases = emitted bytes; operand width written = width consumed); the static type of every visited expression is compared or propagated at each call site (frozen polymorphic exceptions).",
@@ -105,6 +105,20 @@ CLAIMED = {
   design_ref="DESIGN.md §3 C12",
   technique="checked-access dominance + progress path machine + who-may-write over SSA (static analysis)"),
 }
+
+ADDENDA = {
+ "C01": " Also decided (R01f), per enumerated path in the domain of affine forms over opaque symbols: the owners of Machine.Balances keep the books — withdrawAll/withdrawAlways debit exactly what they hand out, withdrawAll hands out 0 or balance+overdraft under a non-negativity guard, credit/repay add exactly the current part's amount to that part's own account, OP_SAVE only lowers a balance.",
+ "C04": " R04c: every SQL text assembled in Go (constants, concatenation, Sprintf, phis) that names a partitioned table carries, in that table's own scope, a ledger predicate qualified by nothing or by the table/alias itself, or a sequence key.",
+ "C08": " R08e: the address VisitExpr returns for push=false is used as the value only for types without a compound form, otherwise for the asset only.",
+ "C09": " Text is read through string expressions (Sprintf = concatenation = strconv); generated names are provably unique; R09h de-duplication keys are injective; R09g no floating point meets an amount in the content-carrying packages.",
+ "C10": " The guard may be taken through a helper; releasing it on a path whose take failed (ownership) is a violation.",
+ "C12": " R12f: shared amounts are never modified in place (mutating big.Int methods only on fresh receivers).",
+ "C13": " R13g: exact amounts — no floating-point value meeting an amount type, no big.Float, no float parser in the content-carrying packages.",
+ "C17": " R17d: the JSON kinds the query builders can write under their operator (nil slice/map/pointer = null) are all cases of the decoder's type switch.",
+ "C19": " R19d: no function of the repository stores into http.Request.Method or chi.Context.RouteMethod (constant safe verbs excepted) or uses a third-party function that does.",
+}
+for _k, _v in ADDENDA.items():
+    CLAIMED[_k]["text"] += _v
 
 NOT_APPLICABLE = {
  "C03": "Purely numerical (rounding, caps, conservation over big.Int/big.Rat through a stack VM whose layout is data): no sound static argument within reach separates a correct Allocate/Take from an off-by-one; see DESIGN.md §3 C03.",
